@@ -40,6 +40,9 @@ func (st *State) ufStr(name string, arg *Str, cap int, alphabet string, inj bool
 		}
 	}
 	res := st.newSymStr(name, cap)
+	if name != "s256" { // the S256 challenge is the only declassifier
+		res.p[0].taint = sTaint(arg)
+	}
 	st.addDef(st.sAllBytes(res, func(b *Term) *Term { return inSet(b, alphabet) }))
 	if nonEmptyIfArg {
 		st.addDef(Implies(Gt(sLen(arg), I(0)), Gt(sLen(res), I(0))))
@@ -69,7 +72,7 @@ func isUnreserved(b byte) bool {
 // uninterpreted function into the escaped alphabet that is the identity on unreserved strings.
 func (st *State) queryEscape(s *Str) *Str {
 	if c, ok := s.Const(); ok {
-		return constStr(url.QueryEscape(c))
+		return sWithTaint(constStr(url.QueryEscape(c)), sTaint(s))
 	}
 	res := st.ufStr("qesc", s, 3*sCap(s), escAlphabet, true, true)
 	key := "qesc-id:" + fmt.Sprintf("%p", res)
@@ -192,6 +195,7 @@ func (e *Engine) registerDomain() {
 			naud: c.args[4].(*Term), aud: []*Str{c.args[5].(*Str), c.args[6].(*Str)}, exp: expNs, sigValid: c.args[8].(*Term)}
 		c.st.assume(And(Le(I(0), spec.nonceKind), Le(spec.nonceKind, I(4)), Le(I(0), spec.naud), Le(spec.naud, I(2))))
 		s := c.st.newOpaqueDoc("jwt_" + name)
+		s.p[0].taint = 16 // ID tokens are credentials (C14)
 		spec.s = s
 		var toks []*tokSpec
 		if v, ok := c.st.ghost["toks"]; ok {
